@@ -16,8 +16,8 @@
 //                                               Before -> right.start + 1   = the gap directly AFTER the anchored unit
 //               else 0)                                             -- deleted anchor: the gap where it used to be
 //   The type-scoped arms (`IndexScope::Nested` / `IndexScope::Root`: sticky index of an EMPTY collection) are lifted the same way
-//   (`index = if self.assoc == Assoc::After { ptr.content_len } else { 0 };`) into `sticky_index_of_type`: After = END of the
-//   collection, Before = START.
+//   (`index = if self.assoc == Assoc::After { ptr.content_len } else { 0 };`) into `sticky_index_of_nested` / `sticky_index_of_root`: After = END
+//   of the collection, Before = START.
 //
 //   For verdict levels the two steps (anchor contribution, contribution of one left element) are ALSO lifted on their own
 //   (`sticky_anchor_part`, `sticky_left_step`): an edit of either then fails a contract clause of real code, not just the
@@ -49,7 +49,7 @@
 //                  ASSUMPTION A5: the chain of `left` links is finite and not mutated while the function runs (an immutable
 //                  value of this type IS a finite chain; termination of the real loop rests on this).
 //                  Spelling change: `n.as_deref()` -> `n` (SUB, logged; `Option<ItemPtr>::as_deref` = `Option<&Item>`).
-//   Item           sliced to the three fields the statements read: `left`, `info`, `content`.
+//   Item           sliced to the three fields the statements read: `left`, `info`, `content` (+ lifetime / content parameters).
 //                  DROPPED: id, len, right, origin, right_origin, parent, redone, parent_sub.  (With `right` dropped the
 //                  value is singly linked; a doubly linked immutable value cannot be built.)
 //   ItemContent    ABSTRACT: a type parameter `C: ContentModel`; `ContentModel::len(&self, kind) -> u32` is a bodiless trait
